@@ -147,11 +147,17 @@ def run_job(job, attrs_csv):
             kcalHead=num(KCAL_HEAD[meat_class(a.animal_type, str(row["animal size"]))]),
         )
         pop0[a.animal_type] = num(a.population[0])
+    # the herds the stock table lists with animals in them (Eswatini is SWZ there)
+    stock = pd.read_csv("data/no_food_trade/animal_feed_data/FAOSTAT_head_and_slaughter.csv").set_index("iso3")
+    srow = stock.loc["SWZ" if cc == "SWT" and "SWT" not in stock.index else cc]
+    listed = {c_[:-len("_head")] for c_ in stock.columns if c_.endswith("_head") and float(srow[c_]) > 0}
+    if cc == "IND":
+        listed.discard("meat_cattle")   # (the one documented exception: India's beef herd is left out on purpose, see create_animal_objects)
     ev = []
     while len(months_log) < n:
         months_log.append([])
     for m in range(n):
-        ev.append(dict(ev="BeginMonth", grass=num(grass[m]), feed=num(feed[m])))
+        ev.append(dict(ev="BeginMonth", grass=num(grass[m]), feed=num(feed[m]), missing=len(listed - {a.animal_type for a in animals})))
         for (typ, pre, gout, fout, fedn) in months_log[m]:
             ev.append(dict(ev="Feed", s=typ, pop=num(pre[0]), need=num(pre[1]), grassIn=num(pre[2]),
                            feedIn=num(pre[3]), grassOut=num(gout), feedOut=num(fout), fed=num(fedn)))
